@@ -794,7 +794,6 @@ def classify(fname, rel, s1, s2, detail):
 
 # ---------------------------------------------------------------------------- input classes of the recorded findings
 CURVED_KINDS = {"sphere", "ellipsoid", "capsule", "cylinder", "cone", "disk", "ellipse"}
-NESTEROV_SPECIALISED = {"sphere", "capsule", "box", "ellipsoid", "cylinder"}
 
 
 def _is_curved(sh):
@@ -882,10 +881,81 @@ def _supporting_dir(sh):
     return e / np.linalg.norm(e)
 
 
+# ---- helpers for the mechanism signatures (only evaluated on failing inputs)
+def _transformed_scene(rel, s1, s2, det):
+    """(t1, t2, factor): the second scene of the failing relation"""
+    motion = det.get("motion") or {}
+    if rel == "swap":
+        return s2, s1, 1.0
+    if rel == "rigid":
+        g = A(motion["g"])
+        return move_shape(s1, g), move_shape(s2, g), 1.0
+    f = float(motion["s"])
+    return scale_shape(s1, f), scale_shape(s2, f), f
+
+
+def _fib_dirs(n=600):
+    i = np.arange(n) + 0.5
+    phi = np.arccos(1.0 - 2.0 * i / n)
+    th = np.pi * (1.0 + 5.0 ** 0.5) * i
+    return np.stack([np.cos(th) * np.sin(phi), np.sin(th) * np.sin(phi), np.cos(phi)], 1)
+
+
+def sampled_depth(s1, s2, effort=0):
+    """penetration depth of an overlapping pair from the definition: minimum over unit directions n of the support
+    value h_A(n) + h_B(-n) of A (-) B; sampled directions (600, or 4000 and their negatives with effort=1) +
+    Nelder-Mead refinement of the best ones: an upper bound of the true depth that is tight up to the refinement"""
+    from scipy.optimize import minimize
+    c1, c2 = make_collider(s1), make_collider(s2)
+
+    def h(n):
+        n = n / np.linalg.norm(n)
+        return float(n.dot(c1.support_function(A(n)) - c2.support_function(A(-n))))
+    D = _fib_dirs(600)
+    nbest = 4
+    if effort:
+        D = _fib_dirs(4000)
+        D = np.vstack([D, -D])
+        nbest = 16
+    vals = np.array([h(n) for n in D])
+    best = np.argsort(vals)[:nbest]
+    U = float(vals[best[0]])
+    for b in best:
+        x = D[b]
+        for _ in range(1 + effort):
+            r = minimize(h, x, method="Nelder-Mead", options={"xatol": 1e-8, "fatol": 1e-11, "maxiter": 600})
+            x = r.x
+            U = min(U, float(r.fun))
+    return U
+
+
+def not_below_true_depth(s1, s2, dmin, slack):
+    """dmin >= true depth - slack, judged with the sampled depth (cheap pass first, thorough sampling if that fails)"""
+    if dmin >= sampled_depth(s1, s2) - slack:
+        return True
+    return dmin >= sampled_depth(s1, s2, effort=1) - slack
+
+
+def gjk_simplex_orientation(s1, s2):
+    """<(B-A)x(C-A), D-A> of the simplex gjk hands to epa (C07: > 0 means all four initial EPA normals point inward)"""
+    import distance3d.gjk as G
+    ok, raw = guarded(G.gjk, make_collider(s1), make_collider(s2))
+    if not ok or raw[3] is None:
+        return None
+    Y = np.asarray(raw[3], dtype=float)
+    return float(np.linalg.det(np.array([Y[1] - Y[0], Y[2] - Y[0], Y[3] - Y[0]])))
+
+
+def _d01(det, factor):
+    """the two compared scalars in the units of the base scene"""
+    return float(det["d0"]), float(det["d1"]) / factor
+
+
 def _cls_disk_parallel(fname, rel, s1, s2, det):
-    """disk_to_disk, parallel normals (|n1 x n2|^2 < 1e-8): the 'same plane' test reads the Pluecker moment of the
-    planes' common line w.r.t. the WORLD origin, so coplanar / parallel disks are answered differently in different
-    frames (and orders)"""
+    """disk_to_disk, parallel normals (|n1 x n2|^2 < 1e-8): plane_intersects_plane / line_from_pluecker work with the
+    Pluecker moment of the planes' common line w.r.t. the WORLD origin, so coplanar / parallel disks are answered
+    differently in different frames (and orders / scales).
+    Same defect as F-c10-disk-parallel-origin, F-c10-disk-near-coplanar, F-C11-disk-coplanar, F-C11-disk-parallel."""
     if fname != "disk_to_disk" or det["what"] != "d":
         return False
     cr = np.cross(A(s1["n"]), A(s2["n"]))
@@ -894,12 +964,19 @@ def _cls_disk_parallel(fname, rel, s1, s2, det):
 
 def _cls_disk_order(fname, rel, s1, s2, det):
     """disk_to_disk, non-parallel planes, swapped arguments: the alternating projection (<= 20 sweeps, stops when the
-    progress is < 1e-8) starts from center1 and the contact test looks at one point of the common line only, so the
-    returned (non-optimal) distance depends on the order of the arguments"""
+    progress is < 1e-8) starts from center1, so the early-stopped (too large) iterate depends on the order of the
+    arguments.  Mechanism signature: neither answer is below the true distance (gjk on the two Disk colliders), i.e.
+    the discrepancy is an over-estimate.  Same defect as F-C11-disk-early-stop, seen through the swap relation."""
     if fname != "disk_to_disk" or rel != "swap" or det["what"] != "d":
         return False
     cr = np.cross(A(s1["n"]), A(s2["n"]))
-    return float(cr.dot(cr)) >= 1e-8
+    if float(cr.dot(cr)) < 1e-8:
+        return False
+    ref = call_collider("gjk", dict(s1, kind="disk"), dict(s2, kind="disk"))
+    if not ref["ok"]:
+        return False
+    d0, d1 = _d01(det, 1.0)
+    return min(d0, d1) >= ref["d"] - 1e-4 * scene_L(s1, s2)
 
 
 def _linecircle_aligned(s1, s2):
@@ -911,9 +988,11 @@ def _linecircle_aligned(s1, s2):
 
 def _cls_linecircle_aligned(fname, rel, s1, s2, det):
     """line_to_circle / line_segment_to_circle with the (supporting) line exactly parallel to the circle's normal
-    (axis direction), exactly parallel to the circle's plane, or exactly through the circle's centre: branches are selected by exact floating comparisons
-    (`m0_squared > 0.0`, `b1_squared > 0.0`, `any(... != 0.0)`, first non-zero component of the segment direction),
-    which rounding residues of a rotated frame decide differently; several local minima tie"""
+    (axis direction), exactly parallel to the circle's plane, or exactly through the circle's centre: branches are
+    selected by exact floating comparisons (`m0_squared > 0.0`, `b1_squared > 0.0`, `any(... != 0.0)`, first non-zero
+    component of the segment direction), which rounding residues of a rotated / scaled frame decide differently, and
+    the segment version clamps ONE of several tying local minima.
+    Same defects as F-c10-linecircle-axis-rounding, F-c10-segcircle-param-illcond, F-C11-segcircle-clamp."""
     if fname not in ("line_to_circle", "line_segment_to_circle") or det["what"] != "d":
         return False
     return _linecircle_aligned(s1, s2)
@@ -921,18 +1000,28 @@ def _cls_linecircle_aligned(fname, rel, s1, s2, det):
 
 def _cls_linecircle_inhomogeneous(fname, rel, s1, s2, det):
     """line_to_circle / line_segment_to_circle, general position, uniform scaling: `_case_general` computes
-    s_hat2 = |m0^2 * b1^2 ** (2/3) - b1^2| (the radius is missing, the two terms have different physical dimension)
-    and bisects 8 times, so the selected root interval - and with it the returned local minimum - changes with the
-    unit of length"""
+    s_hat2 = |m0^2 * b1^2 ** (2/3) - b1^2| (the radius factor of Eberly's formula is missing, the two terms have
+    different physical dimension), so the bisection brackets - and the returned local minimum - change with the unit
+    of length.  Mechanism signature: the scene takes that branch (radius * m0^2 > b1, a scale-invariant condition).
+    Same defect as F-C11-line-circle-shat, seen through the scale relation."""
     if fname not in ("line_to_circle", "line_segment_to_circle") or det["what"] != "d" or rel != "scale":
         return False
-    return not _linecircle_aligned(s1, s2)
+    if _linecircle_aligned(s1, s2):
+        return False
+    d, n, r = _supporting_dir(s1), A(s2["n"]), float(s2["r"])
+    lp = (A(s1["p"]) if s1["kind"] == "line" else A(s1["a"])) - A(s2["c"])
+    dxn, pxn = np.cross(d, n), np.cross(lp, n)
+    m0sq = float(dxn.dot(dxn))
+    lam = -float(dxn.dot(pxn)) / m0sq
+    b1 = float(np.linalg.norm(pxn + lam * dxn))
+    return r * m0sq > b1
 
 
 def _cls_circle_axis_band(fname, rel, s1, s2, det):
     """point_to_circle (and line_segment_to_circle, which clamps to an end point and delegates): query point closer
     than 1e-3 (absolute: in-plane distance^2 < epsilon = 1e-6) to the circle's axis in one of the two scenes: an
-    arbitrary rim point (from a frame-dependent basis) is returned together with sqrt(r^2 + h^2)"""
+    arbitrary rim point (from a frame-dependent basis) is returned together with sqrt(r^2 + h^2).
+    Same defect as F-c10-circle-axis-band / F-C11-circle-axis-band."""
     if fname not in ("point_to_circle", "line_segment_to_circle"):
         return False
     if not (det["what"] == "points" or (det["what"] == "d" and rel == "scale")):
@@ -950,62 +1039,70 @@ def _cls_circle_axis_band(fname, rel, s1, s2, det):
 
 
 def _cls_mpr_depth(fname, rel, s1, s2, det):
-    """mpr_penetration, depth output: the depth is the distance of the origin to the last portal triangle; which
-    portal is reached depends on the order of the arguments (all orientation tests flip), on support-function ties
-    and the world-frame fallback direction for coincident centres, and on the absolute mpr_tolerance"""
-    return fname == "mpr_penetration" and det["what"] == "d"
-
-
-def _cls_epa_curved(fname, rel, s1, s2, det):
-    """epa with at least one curved collider (sphere, ellipsoid, capsule, cylinder, cone, disk, ellipse, Margin):
-    the polytope is limited to 64 faces / 32 loose edges and 'success' is declared on the first face whose support
-    gain is < 1e-8, which depends on the start simplex handed over by GJK (frame / order / scale dependent)"""
-    return fname == "epa" and det["what"] == "d" and (_is_curved(s1) or _is_curved(s2))
+    """mpr_penetration, depth output: the depth is the distance of the origin to the LAST portal triangle; which
+    portal is reached depends on the order of the arguments (every orientation test of _expand_portal flips), on
+    support-function ties / the world-frame nudge for coincident centres, and on the absolute mpr_tolerance.  C08 only
+    bounds the depth from below, and that is all the code delivers.  Mechanism signature: neither of the two depths
+    is below the true penetration depth (sampled from the definition) by more than the C08 tolerance, i.e. the
+    discrepancy is an over-estimate along a non-optimal portal.  Related: F-mpr-expand-tie, F-mpr-segment-contact
+    (C08), F-mpr-origin-on-portal-side-plane (C02)."""
+    if fname != "mpr_penetration" or det["what"] != "d":
+        return False
+    _t1, _t2, factor = _transformed_scene(rel, s1, s2, det)
+    d0, d1 = _d01(det, factor)
+    return not_below_true_depth(s1, s2, min(d0, d1), 4e-3 * scene_L(s1, s2))
 
 
 def _cls_epa_degenerate(fname, rel, s1, s2, det):
-    """epa on polytopes with exactly aligned features (parallel / perpendicular faces and edges, coincident
-    centres) or small-denominator rational coordinates (lattice scenes: exact ties in the support functions and in
-    the closest-face selection): GJK hands over a degenerate / differently wound simplex, the initial faces are never
-    oriented and faces with |normal| < 0.5 are skipped, so the reported depth is not the minimum in some frames"""
-    return fname == "epa" and det["what"] == "d" and not (_is_curved(s1) or _is_curved(s2)) and \
-        (degenerate_placement(s1, s2) or lattice_scene(s1, s2))
-
-
-def _cls_epa_small(fname, rel, s1, s2, det):
-    """epa on polytopes with a feature size below 0.1 length units (domain floor is 1e-2): the absolute thresholds of
-    epa.py (winding bias 1e-6 in fix_ccw_normal_direction, epsilon 1e-8 in triangle_faces_point / edge matching) are
-    not scaled with the shapes; the same scene scaled up by 3 or more is answered consistently"""
-    if fname != "epa" or det["what"] != "d" or _is_curved(s1) or _is_curved(s2):
+    """epa answers success=True with a (numerically) zero translation vector in one of the two scenes and a positive
+    depth in the other.  Mechanism signature: in the zero scene gjk handed over a flat simplex (stale / duplicate rows,
+    origin on a face: zero volume), from which epa builds zero-area initial faces.
+    Same defect as F-epa-degenerate-simplex (C07) / F-epa-incomplete-simplex (C19)."""
+    if fname != "epa" or det["what"] != "d":
         return False
-    s = 1.0
-    if rel == "scale":
-        s = min(1.0, float((det.get("motion") or {}).get("s", 1.0)))      # the smaller of the two scenes
-    sizes = [x for x in shape_sizes(s1) + shape_sizes(s2) if x > 0]
-    return bool(sizes) and s * min(sizes) < 0.1
+    t1, t2, factor = _transformed_scene(rel, s1, s2, det)
+    d0, d1 = _d01(det, factor)
+    L = scene_L(s1, s2)
+    if min(d0, d1) > 1e-9 * L:
+        return False
+    zs1, zs2, Lz = (s1, s2, L) if d0 <= d1 else (t1, t2, scene_L(t1, t2))
+    o = gjk_simplex_orientation(zs1, zs2)
+    return o is not None and abs(o) <= 1e-9 * Lz ** 3
+
+
+def _cls_epa_winding(fname, rel, s1, s2, det):
+    """epa reports two different positive depths.  Mechanism signature: the scene with the larger depth received a
+    simplex with <(B-A)x(C-A), D-A> > 0 from gjk (all four initial normals point inward, they are never oriented), and
+    neither depth is below the true penetration depth (sampled from the definition): an over-estimate from a wrongly
+    wound start polytope (curved shapes additionally stop at the 64-face limit / first face with gain < 1e-8).
+    Same defect as F-epa-inward-winding (C07)."""
+    if fname != "epa" or det["what"] != "d":
+        return False
+    t1, t2, factor = _transformed_scene(rel, s1, s2, det)
+    d0, d1 = _d01(det, factor)
+    L = scene_L(s1, s2)
+    if min(d0, d1) <= 1e-9 * L:
+        return False
+    w1, w2 = (s1, s2) if d0 > d1 else (t1, t2)
+    o = gjk_simplex_orientation(w1, w2)
+    if o is None or not o > 0.0:
+        return False
+    return not_below_true_depth(s1, s2, min(d0, d1), 1e-3 * L)
 
 
 def _cls_nesterov_momentum(fname, rel, s1, s2, det):
-    """gjk_nesterov_accelerated(use_nesterov_acceleration=True), distance output"""
-    return fname == "gjk_nesterov_accelerated_distance(nesterov)" and det["what"] == "d"
-
-
-def _cls_nesterov_mixed(fname, rel, s1, s2, det):
-    """gjk_nesterov_accelerated* on a mixed pair: one collider is a bare Sphere / Capsule (its radius is booked as
-    'inflation') and the other has no specialised support, so the generic full support functions are used and the
-    inflation is subtracted nevertheless"""
-    if not fname.startswith("gjk_nesterov_accelerated") or "primitives" in fname:
+    """gjk_nesterov_accelerated(use_nesterov_acceleration=True), distance output.  Mechanism signature: the same two
+    scenes satisfy the relation with the default use_nesterov_acceleration=False, i.e. the momentum direction (which
+    mixes in the world-frame start ray) is what breaks it.
+    Same defect as F-nesterov-accel-projection / F-nesterov-cap-zero (C09)."""
+    if fname != "gjk_nesterov_accelerated_distance(nesterov)" or det["what"] != "d":
         return False
-    k1, k2 = s1["kind"], s2["kind"]
-    inflated = k1 in ("sphere", "capsule") or k2 in ("sphere", "capsule")
-    generic = k1 not in NESTEROV_SPECIALISED or k2 not in NESTEROV_SPECIALISED
-    return inflated and generic
-
-
-def _cls_gjk_degenerate(fname, rel, s1, s2, det):
-    """gjk (gjk_distance_jolt), distance output, exactly aligned features or small-denominator rational coordinates
-    (lattice scenes): exact ties in the support functions / simplex solver"""
-    return fname == "gjk" and det["what"] == "d" and (degenerate_placement(s1, s2) or lattice_scene(s1, s2))
+    t1, t2, factor = _transformed_scene(rel, s1, s2, det)
+    r0 = call_collider("gjk_nesterov_accelerated_distance", s1, s2)
+    r1 = call_collider("gjk_nesterov_accelerated_distance", t1, t2)
+    if not (r0["ok"] and r1["ok"]):
+        return False
+    return abs(r1["d"] - factor * r0["d"]) <= 1e-3 * (scene_L(t1, t2) + factor * scene_L(s1, s2))
 
 
 def _size_ratio(s1, s2):
@@ -1013,24 +1110,52 @@ def _size_ratio(s1, s2):
     return max(sizes) / min(sizes) if sizes else 1.0
 
 
-def _cls_gjk_size_ratio(fname, rel, s1, s2, det):
-    """gjk (gjk_distance_jolt), distance output, feature sizes of the pair differ by a factor >= 500 (e.g. a disk of
-    radius 0.02 against a tetrahedron with edges of 25): the relative progress test stops on a non-optimal simplex
-    in some frames"""
-    return fname == "gjk" and det["what"] == "d" and _size_ratio(s1, s2) >= 500.0
+def _one_matches_reference(ref_fn, rel, s1, s2, det, k):
+    """the reference algorithm satisfies the relation on the two scenes and agrees with one of the two answers"""
+    t1, t2, factor = _transformed_scene(rel, s1, s2, det)
+    r0, r1 = call_collider(ref_fn, s1, s2), call_collider(ref_fn, t1, t2)
+    if not (r0["ok"] and r1["ok"]):
+        return False
+    L = scene_L(s1, s2)
+    if abs(r1["d"] / factor - r0["d"]) > 2 * k * L:
+        return False
+    d0, d1 = _d01(det, factor)
+    return min(abs(d0 - r0["d"]), abs(d1 - r0["d"])) <= 2 * k * L
+
+
+def _cls_gjk_jolt(fname, rel, s1, s2, det):
+    """gjk (gjk_distance_jolt), distance output, on (a) exactly aligned features or small-denominator rational
+    coordinates (lattice scenes: exact ties in support functions / simplex solver) or (b) feature sizes differing by
+    a factor >= 500 (needle-like simplices).  Mechanism signature: gjk_distance_original satisfies the relation on the
+    same two scenes and agrees with ONE of the two jolt answers (the other is not optimal).
+    Related: F-C18-jolt-illcond, F-C18-jolt-abs-eps (simplex solver of _gjk_jolt.py)."""
+    if fname != "gjk" or det["what"] != "d":
+        return False
+    if not (degenerate_placement(s1, s2) or lattice_scene(s1, s2) or _size_ratio(s1, s2) >= 500.0):
+        return False
+    return _one_matches_reference("gjk_distance_original", rel, s1, s2, det, 1e-3)
 
 
 def _cls_gjk_original_zero(fname, rel, s1, s2, det):
     """gjk_distance_original answers exactly 0.0 (overlap) in one of the two scenes and a clearly positive distance
-    in the other: the distance sub-algorithm / backup procedure loses the simplex in some frames"""
-    return fname == "gjk_distance_original" and det["what"] == "d" and (det.get("d0") == 0.0 or det.get("d1") == 0.0)
+    in the other.  Mechanism signature: gjk (jolt) satisfies the relation on the same scenes and agrees with one of the
+    two answers.  Same defect as F-orig-degenerate-tetra-zero (C09) / F-C18-orig-abs-eps."""
+    if fname != "gjk_distance_original" or det["what"] != "d":
+        return False
+    if not (det.get("d0") == 0.0 or det.get("d1") == 0.0):
+        return False
+    return _one_matches_reference("gjk", rel, s1, s2, det, 1e-3)
 
 
 def _cls_nesterov_degenerate(fname, rel, s1, s2, det):
-    """gjk_nesterov_accelerated_distance (default arguments), exactly aligned features: the relative convergence
-    test (tolerance 1e-6 on the duality gap estimate) stops a few 1e-3*L early in some frames"""
-    return fname == "gjk_nesterov_accelerated_distance" and det["what"] == "d" and \
-        (degenerate_placement(s1, s2) or lattice_scene(s1, s2))
+    """gjk_nesterov_accelerated_distance (default arguments) on exactly aligned features / lattice scenes: a few
+    1e-3*L off in some frames.  Mechanism signature: gjk (jolt) satisfies the relation and agrees with one of the two
+    answers.  Related: F-nesterov-tetra-region (C09), F-nesterov-project-tetra-outside-simplex (C02)."""
+    if fname != "gjk_nesterov_accelerated_distance" or det["what"] != "d":
+        return False
+    if not (degenerate_placement(s1, s2) or lattice_scene(s1, s2)):
+        return False
+    return _one_matches_reference("gjk", rel, s1, s2, det, 1e-3)
 
 
 # list of (id, predicate(fname, relation, s1, s2, detail) -> bool); first match wins
@@ -1041,14 +1166,11 @@ _FINDING_CLASSES = [
     ("F-c12-circle-axis-band", _cls_circle_axis_band),
     ("F-c12-linecircle-inhomogeneous", _cls_linecircle_inhomogeneous),
     ("F-c12-mpr-depth-path", _cls_mpr_depth),
-    ("F-c12-epa-curved", _cls_epa_curved),
-    ("F-c12-epa-degenerate", _cls_epa_degenerate),
-    ("F-c12-epa-small-polytopes", _cls_epa_small),
-    ("F-c12-nesterov-mixed-inflation", _cls_nesterov_mixed),
+    ("F-c12-epa-degenerate-simplex", _cls_epa_degenerate),
+    ("F-c12-epa-inward-winding", _cls_epa_winding),
     ("F-c12-nesterov-momentum", _cls_nesterov_momentum),
     ("F-c12-nesterov-degenerate", _cls_nesterov_degenerate),
-    ("F-c12-gjk-degenerate", _cls_gjk_degenerate),
-    ("F-c12-gjk-size-ratio", _cls_gjk_size_ratio),
+    ("F-c12-gjk-jolt-simplex", _cls_gjk_jolt),
     ("F-c12-gjk-original-zero", _cls_gjk_original_zero),
 ]
 
@@ -1509,16 +1631,18 @@ def search(ctx):
     if n_uninit:
         ctx.notes.append("gjk (gjk_distance_jolt) returned a simplex with rows that were never written (Y = np.empty((4, 3)), "
                          "GJK stopped with fewer than 4 points) in %d overlapping scenes of this run; epa() on such a simplex is "
-                         "not reproducible and was not called there (subject of C01/C07, reported to those verticals)" % n_uninit)
+                         "not reproducible and was not called there (recorded by C07 as F-epa-degenerate-simplex and by C19 as "
+                         "F-epa-incomplete-simplex)" % n_uninit)
     ctx.branches["relations"] = {fn + "/" + kk: v for fn, d in st.rel.items() for kk, v in d.items()}
 
 
 def known_witnesses():
-    """concrete failing inputs of the recorded findings (known_findings.d/C12.json), replayed on every run"""
+    """concrete inputs of the recorded findings (known_findings.d/C12.json), replayed on every run: `known` ones
+    reproduce the finding, `fixed` ones are regression inputs (a failure there is a VIOLATION)"""
     out = []
     for k in core.load_known():
         w = k.get("witness")
-        if k.get("property") == "C12" and k.get("status") == "known" and isinstance(w, dict) and "s1" in w:
+        if k.get("property") == "C12" and k.get("status") in ("known", "fixed") and isinstance(w, dict) and "s1" in w:
             out.append(w)
     return out
 
